@@ -162,7 +162,7 @@ theorem write_scaffold_rowStep (gapIt : Row → List Nat → List BytesIO) (seqI
       (sc.rows.foldlM (ImpStream.rowStep w (fun r => gapIt r gc) seqIt) (w, [62] ++ strToBytes sc.name ++ [10])).map (finish w) := by
   unfold Gen.Imp.FastaStream_write_scaffold
   dsimp only
-  rw [ImpStream.forIn_nextM (ImpStream.rowStep w (fun r => gapIt r gc) seqIt)]
+  rw [ImpStream.forIn_nextM_enc ImpStream.enc2 (ImpStream.rowStep w (fun r => gapIt r gc) seqIt) _ (w, _)]
   · have hhdr : ([] : Bytes) ++ strToBytes (">".toList ++ sc.name ++ "\n".toList) = [62] ++ strToBytes sc.name ++ [10] := by
       simp [strToBytes]
     rw [hhdr]
@@ -170,7 +170,7 @@ theorem write_scaffold_rowStep (gapIt : Row → List Nat → List BytesIO) (seqI
     | error e => rfl
     | ok s =>
       obtain ⟨want, out⟩ := s
-      by_cases hw : want = w <;> simp [bind, Except.bind, Except.map, finish, hw]
+      by_cases hw : want = w <;> simp [bind, Except.bind, Except.map, finish, ImpStream.enc2, hw]
   · intro row hrow s
     obtain ⟨want, out⟩ := s
     have hf := hfuel row hrow
@@ -185,11 +185,11 @@ theorem write_scaffold_rowStep (gapIt : Row → List Nat → List BytesIO) (seqI
       | ok cs =>
         have hcs : ∀ c ∈ cs, c.data.length < fuel := hf cs hX
         simp only [bind, Except.bind, Except.map]
-        rw [ImpStream.forIn_next (ImpStream.chunkStep w)]
+        rw [ImpStream.forIn_next_enc ImpStream.enc2 (ImpStream.chunkStep w) cs (want, out)]
         intro c hc s
         obtain ⟨want, out⟩ := s
-        refine ImpStream.chunk_body w fuel _ _ _ ?_ ?_ ?_ c (hcs c hc) want out
-        · intro s; rfl
+        refine ImpStream.chunk_body ImpStream.st3 ImpStream.enc2 w fuel _ _ _ ?_ ?_ ?_ c (hcs c hc) want out
+        · intro want c out; rfl
         · intro want c out
           dsimp only
           by_cases h1 : (c.read want).1.isEmpty = true
